@@ -1,14 +1,20 @@
-//! C03 (documented sequence), C01 (grammar), C13 (lazy/independent) over
-//! run-time composed operator chains.
-use crate::cat;
+//! C01 (grammar), C02 (silent after unsubscribe; non-scheduler operators),
+//! C03 (documented sequence), C13 (lazy/independent), C15 (finalize once),
+//! C16 (is_finished forwarding), C17 (is_closed soundness) over operator chains
+//! composed at run time from the catalogue.
+use crate::cat::{self, Obs, Op2, OPS2};
 use crate::engine as e;
 use crate::harness::*;
-use crate::model::{self, Op, Tm, P, C03_OPS};
-use crate::world;
+use crate::model::{self, Op, Script, Tm, C03_OPS, P, PASS_OPS};
+use crate::val::Val;
+use crate::world::{self, Ev, Probe};
+use rxrust::prelude::*;
 
 fn pick_op(ops: &[Op]) -> Op {
   ops[e::choose(ops.len() as u32) as usize]
 }
+
+// ------------------------------------------------------------------ C03
 
 /// C03: chain of `depth` catalogue operators over cold / hot sources.
 fn c03_chain(depth: usize, max_len: u32) {
@@ -42,29 +48,655 @@ fn c03_chain(depth: usize, max_len: u32) {
   e::cover("c03-chain-path-complete");
 }
 
+/// C03: the basic sources, each against its documented sequence.
+fn c03_sources() {
+  use rxrust::observable as ob;
+  let probe = fresh_probe();
+  let v = Val::var();
+  let which = e::choose(12);
+  let (name, want): (&str, Script) = match which {
+    0 => {
+      ob::of(v.clone()).actual_subscribe(probe);
+      ("of", Script { items: vec![v.clone()], term: Tm::Complete })
+    }
+    1 => {
+      let some = e::choose_bool();
+      ob::of_option(if some { Some(v.clone()) } else { None }).actual_subscribe(probe);
+      ("of_option", Script { items: if some { vec![v.clone()] } else { vec![] }, term: Tm::Complete })
+    }
+    2 => {
+      let ok = e::choose_bool();
+      let r: Result<Val, Val> = if ok { Ok(v.clone()) } else { Err(v.clone()) };
+      ob::of_result(r).actual_subscribe(probe);
+      ("of_result", if ok { Script { items: vec![v.clone()], term: Tm::Complete } } else { Script { items: vec![], term: Tm::Error(v.clone()) } })
+    }
+    3 => {
+      let vv = v.clone();
+      ob::of_fn(move || {
+        world::bump(0);
+        vv
+      })
+      .actual_subscribe(probe);
+      if world::counter(0) != 1 {
+        e::fail("source/of_fn/call-count", || format!("closure ran {} times", world::counter(0)));
+      }
+      ("of_fn", Script { items: vec![v.clone()], term: Tm::Complete })
+    }
+    4 => {
+      let vv = v.clone();
+      ob::start(move || {
+        world::bump(0);
+        vv
+      })
+      .actual_subscribe(probe);
+      if world::counter(0) != 1 {
+        e::fail("source/start/call-count", || format!("closure ran {} times", world::counter(0)));
+      }
+      ("start", Script { items: vec![v.clone()], term: Tm::Complete })
+    }
+    5 => {
+      let n = e::choose(5) as usize;
+      let items: Vec<Val> = (0..n).map(|_| Val::var()).collect();
+      ob::from_iter(items.clone()).actual_subscribe(probe);
+      ("from_iter", Script { items, term: Tm::Complete })
+    }
+    6 => {
+      let n = e::choose(5) as usize;
+      ob::repeat(v.clone(), n).actual_subscribe(probe);
+      ("repeat", Script { items: vec![v.clone(); n], term: Tm::Complete })
+    }
+    7 => {
+      ob::empty().actual_subscribe(ProbeOf::<Val>(probe, std::marker::PhantomData));
+      ("empty", Script { items: vec![], term: Tm::Complete })
+    }
+    8 => {
+      ob::never().actual_subscribe(probe);
+      ("never", Script { items: vec![], term: Tm::None })
+    }
+    9 => {
+      ob::throw(v.clone()).actual_subscribe(probe);
+      ("throw", Script { items: vec![], term: Tm::Error(v.clone()) })
+    }
+    10 => {
+      // create: whatever the closure sends, cut at its first terminal
+      let k = 4;
+      let evs: Vec<Ev> = (0..k)
+        .map(|_| match e::choose(3) {
+          0 => Ev::Next(Val::var()),
+          1 => Ev::Complete,
+          _ => Ev::Err(Val::var()),
+        })
+        .collect();
+      let evs2 = evs.clone();
+      let src = ob::create::<_, Val, Val, _>(move |mut s: Subscriber<Probe>| {
+        for ev in evs2 {
+          match ev {
+            Ev::Next(v) => Observer::<Val, Val>::next(&mut s, v),
+            Ev::Complete => Observer::<Val, Val>::complete(s.clone()),
+            Ev::Err(x) => Observer::<Val, Val>::error(s.clone(), x),
+          }
+        }
+      });
+      Observable::<Val, Val, Probe>::actual_subscribe(src, probe);
+      ("create", Script::from_events(&evs))
+    }
+    _ => {
+      // defer: supplier runs at subscription, once
+      let vv = v.clone();
+      let d = ob::defer(move || {
+        world::bump(0);
+        ob::of(vv)
+      });
+      if world::counter(0) != 0 {
+        e::fail("source/defer/eager", || "supplier ran before subscription".to_string());
+      }
+      d.actual_subscribe(probe);
+      if world::counter(0) != 1 {
+        e::fail("source/defer/call-count", || format!("supplier ran {} times", world::counter(0)));
+      }
+      ("defer", Script { items: vec![v.clone()], term: Tm::Complete })
+    }
+  };
+  e::note(format!("source {}", name));
+  let got = probe.events();
+  let key = format!("source/{}/sequence", name);
+  match model::compare(&got, &want) {
+    Ok(t) => e::check(t, &key, || format!("got [{}] expected [{}]", model::show_events(&got), want.show())),
+    Err(why) => e::fail(&key, || format!("{} ; got [{}] expected [{}]", why, model::show_events(&got), want.show())),
+  }
+}
+
+/// adapter fixing the item type for sources that are generic in it
+struct ProbeOf<T>(Probe, std::marker::PhantomData<T>);
+impl<T: crate::val::IntoVal, E: crate::val::IntoVal> Observer<T, E> for ProbeOf<T> {
+  fn next(&mut self, v: T) {
+    Observer::<T, E>::next(&mut self.0, v)
+  }
+  fn error(self, e: E) {
+    Observer::<T, E>::error(self.0, e)
+  }
+  fn complete(self) {
+    Observer::<T, E>::complete(self.0)
+  }
+  fn is_finished(&self) -> bool {
+    Observer::<T, E>::is_finished(&self.0)
+  }
+}
+
+// ------------------------------------------------------------------ hot chains with arbitrary event sequences
+
+#[derive(Clone, Debug)]
+enum Stage {
+  U(Op, P),
+  /// two-input operator; `chain_is_main`: the chain so far is the main input, a fresh hot source (tag) the other
+  B(Op2, bool, usize),
+}
+
+fn show_stage(s: &Stage) -> String {
+  match s {
+    Stage::U(o, p) => show_p(*o, p),
+    Stage::B(o, main, tag) => format!("{:?}({} hot#{})", o, if *main { "with" } else { "as notifier of" }, tag),
+  }
+}
+
+fn stage_names(st: &[Stage]) -> String {
+  st.iter()
+    .map(|s| match s {
+      Stage::U(o, _) => op_name(*o),
+      Stage::B(o, m, _) => format!("{:?}{}", o, if *m { "" } else { "'" }),
+    })
+    .collect::<Vec<_>>()
+    .join(".")
+}
+
+fn build_stages(mut o: Obs, st: &[Stage]) -> Obs {
+  for s in st {
+    o = match s {
+      Stage::U(op, p) => cat::build(*op, o, p),
+      Stage::B(op, true, tag) => cat::build2(*op, o, cat::hot_tagged(*tag)),
+      Stage::B(op, false, tag) => cat::build2(*op, cat::hot_tagged(*tag), o),
+    };
+  }
+  o
+}
+
+#[derive(Clone, Copy, PartialEq)]
+enum Mode {
+  Grammar,   // C01
+  Unsub,     // C02
+  IsClosed,  // C17
+  Finished,  // C16 forwarding obligation
+}
+
+fn all_unary_ops() -> Vec<Op> {
+  let mut v = C03_OPS.to_vec();
+  v.extend_from_slice(PASS_OPS);
+  v
+}
+
+/// A chain of `depth` stages over hot inputs; `k` arbitrary events (any kind, any
+/// input, also after terminals, terminals through cloned handles).
+fn hot_chain(mode: Mode, depth: usize, k: usize, binary: bool) {
+  let unary = all_unary_ops();
+  let mut stages: Vec<Stage> = vec![];
+  let mut tags: Vec<usize> = vec![0];
+  for i in 0..depth {
+    let nb = if binary { OPS2.len() * 2 } else { 0 };
+    let c = e::choose((unary.len() + nb) as u32) as usize;
+    if c < unary.len() {
+      let op = unary[c];
+      stages.push(Stage::U(op, draw_params(op, k as u32, 10 + i)));
+    } else {
+      let j = c - unary.len();
+      let tag = i + 1;
+      tags.push(tag);
+      stages.push(Stage::B(OPS2[j / 2], j % 2 == 0, tag));
+    }
+  }
+  e::note(format!("chain {}", stages.iter().map(show_stage).collect::<Vec<_>>().join(" -> ")));
+  let probe = fresh_probe();
+  let o = build_stages(cat::hot_tagged(0), &stages);
+  let mut unsub: Option<BoxSubscription<'static>> = Some(subscribe(o, probe));
+  let names = stage_names(&stages);
+  let cut = if mode == Mode::Unsub { e::choose(k as u32 + 1) as usize } else { usize::MAX };
+  let by_guard = mode == Mode::Unsub && e::choose_bool();
+  let mut evs0: Vec<Ev> = vec![];
+  let mut closed_seen = false;
+  for step in 0..=k {
+    if step == cut {
+      if let Some(u) = unsub.take() {
+        if by_guard {
+          drop(u.unsubscribe_when_dropped());
+        } else {
+          u.unsubscribe();
+        }
+        probe.silence();
+        e::note("unsubscribe()".to_string());
+        for t in &tags {
+          if let Some(h) = cat::handle_nth(*t, 0) {
+            if !h.is_closed() {
+              e::fail(&format!("handle-open-after-unsubscribe/{}", names), || format!("source-side handle of hot#{} reports open after unsubscribe()", t));
+            }
+          }
+        }
+      }
+    }
+    if step == k {
+      break;
+    }
+    let t = tags[e::choose(tags.len() as u32) as usize];
+    let ev = match e::choose(3) {
+      0 => Ev::Next(Val::var()),
+      1 => Ev::Complete,
+      _ => Ev::Err(Val::var()),
+    };
+    e::note(format!("hot#{}.{}", t, world::show_ev(&ev)));
+    if t == 0 {
+      evs0.push(ev.clone());
+    }
+    if let Some(mut h) = cat::handle_nth(t, 0) {
+      feed(&mut h, &ev);
+    }
+    if mode == Mode::IsClosed {
+      if let Some(u) = unsub.as_ref() {
+        let c = u.is_closed();
+        if closed_seen && !c {
+          e::fail(&format!("is_closed-went-back-to-false/{}", names), || "is_closed() returned true and later false".to_string());
+        }
+        if c {
+          closed_seen = true;
+          probe.forbid("delivery-after-is_closed");
+        }
+      }
+    }
+    if mode == Mode::Finished && probe.terminated() {
+      // the subscriber is done: every producer feeding it must be able to see that
+      for t in &tags {
+        if let Some(h) = cat::handle_nth(*t, 0) {
+          let fin = Observer::<Val, Val>::is_finished(&h);
+          if !fin {
+            e::fail(&format!("is_finished-not-forwarded/{}/hot#{}", names, t), || format!("downstream terminated but the producer handle hot#{} sees is_finished() == false", t));
+          }
+        }
+      }
+    }
+  }
+  // oracle where the chain is purely single-input
+  if mode == Mode::Grammar && stages.iter().all(|s| matches!(s, Stage::U(..))) {
+    let chain: Vec<(Op, P)> = stages
+      .iter()
+      .map(|s| match s {
+        Stage::U(o, p) => (*o, p.clone()),
+        _ => unreachable!(),
+      })
+      .collect();
+    let script = Script::from_events(&evs0);
+    verify_against(&probe.events(), &chain, &script, &format!("seq-mismatch/{}", names));
+  }
+  e::cover("hot-chain-path-complete");
+  if probe.terminated() {
+    e::cover("probe-saw-terminal");
+  }
+}
+
+// ------------------------------------------------------------------ C13
+
+struct NestObserver {
+  outer: Probe,
+  inner: Option<(Obs, Probe)>,
+}
+impl Observer<Val, Val> for NestObserver {
+  fn next(&mut self, v: Val) {
+    if let Some((o, p)) = self.inner.take() {
+      // a nested subscription of a clone, made from inside the first one's callback
+      let _ = o.actual_subscribe(p);
+    }
+    Observer::<Val, Val>::next(&mut self.outer, v)
+  }
+  fn error(self, e: Val) {
+    Observer::<Val, Val>::error(self.outer, e)
+  }
+  fn complete(self) {
+    Observer::<Val, Val>::complete(self.outer)
+  }
+  fn is_finished(&self) -> bool {
+    Observer::<Val, Val>::is_finished(&self.outer)
+  }
+}
+
+fn c13_chain(depth: usize, max_len: u32) {
+  let mut chain: Vec<(Op, P)> = vec![];
+  let unary = all_unary_ops();
+  for i in 0..depth {
+    let op = pick_op(&unary);
+    chain.push((op, draw_params(op, max_len + 1, 10 + i)));
+  }
+  let script = draw_script(max_len, false);
+  e::note(format!("chain {} ; input [{}]", chain.iter().map(|(o, p)| show_p(*o, p)).collect::<Vec<_>>().join(" -> "), script.show()));
+  let names = chain_key("", &chain);
+  let o = build_chain(cat::cold(script.items.clone(), script.term.clone(), 0), &chain);
+  if world::counter(0) != 0 {
+    e::fail(&format!("eager-source{}", names), || "the source ran while the pipeline was being built".to_string());
+  }
+  for i in 0..depth {
+    if world::counter(10 + i) != 0 {
+      e::fail(&format!("eager-closure{}", names), || "an operator closure ran while the pipeline was being built".to_string());
+    }
+  }
+  let nested = e::choose_bool();
+  let (pa, pb, pc) = (fresh_probe(), fresh_probe(), fresh_probe());
+  let a = o.clone();
+  let b = o.clone();
+  if nested {
+    let _ = a.actual_subscribe(NestObserver { outer: pa, inner: Some((b, pb)) });
+  } else {
+    let _ = a.actual_subscribe(pa);
+    let _ = b.actual_subscribe(pb);
+  }
+  let _ = o.actual_subscribe(pc);
+  let want_subs = if nested && sem_chain(&chain, &script, false).items.is_empty() && pb.len() == 0 { 2 } else { 3 };
+  for (i, p) in [pa, pb, pc].iter().enumerate() {
+    if nested && i == 1 && want_subs == 2 {
+      continue; // the nested subscription was never made (first one delivered no item)
+    }
+    verify_against(&p.events(), &chain, &script, &format!("subscription-{}-differs{}", i, names));
+  }
+  let c = world::counter(0);
+  if c != want_subs {
+    e::fail(&format!("source-run-count{}", names), || format!("source ran {} times for {} subscriptions", c, want_subs));
+  }
+  e::cover("c13-path-complete");
+}
+
+// ------------------------------------------------------------------ C15
+
+fn c15_finalize(k: usize, threads_form: bool) {
+  // hot handle -> (optional operator) -> finalize -> probe; any item prefix, then any
+  // order of complete / error / unsubscribe, each possibly repeated through clones
+  let probe = fresh_probe();
+  let pre = if e::choose_bool() { Some(pick_op(&[Op::Take, Op::Filter, Op::Skip, Op::TakeWhile])) } else { None };
+  let post = if e::choose_bool() { Some(pick_op(&[Op::Take, Op::Map, Op::TakeWhile, Op::Contains])) } else { None };
+  let pp = pre.map(|o| (o, draw_params(o, 2, 20)));
+  let po = post.map(|o| (o, draw_params(o, 2, 21)));
+  let fin_cb = move || {
+    let n = world::bump(1);
+    // position of the call relative to the downstream terminal
+    let term_seen = world::w(|w| w.probes[probe.id].terminated);
+    world::set_counter(2, term_seen as i64);
+    if n > 1 {
+      e::fail("finalize/ran-twice", || "finalizer invoked a second time".to_string());
+    }
+  };
+  let mut unsub: Option<Box<dyn FnOnce()>>;
+  let mut feeder: Box<dyn FnMut(&Ev)>;
+  if !threads_form {
+    let mut o = cat::hot();
+    if let Some((op, p)) = &pp {
+      o = cat::build(*op, o, p);
+    }
+    let o = o.finalize(fin_cb);
+    let u = match &po {
+      Some((op, p)) => {
+        let oo: Obs = o.box_it();
+        BoxSubscription::new(cat::build(*op, oo, p).actual_subscribe(probe))
+      }
+      None => BoxSubscription::new(o.actual_subscribe(probe)),
+    };
+    unsub = Some(Box::new(move || u.unsubscribe()));
+    let mut h = cat::handle(0);
+    feeder = Box::new(move |ev| feed(&mut h, ev));
+  } else {
+    let mut o = cat::hot_t();
+    if let Some((op, p)) = &pp {
+      o = cat::build_t(*op, o, p);
+    }
+    let o = o.finalize_threads(fin_cb);
+    let u = match &po {
+      Some((op, p)) => {
+        let oo: cat::ObsT = o.box_it();
+        BoxSubscriptionThreads::new(cat::build_t(*op, oo, p).actual_subscribe(probe))
+      }
+      None => BoxSubscriptionThreads::new(o.actual_subscribe(probe)),
+    };
+    unsub = Some(Box::new(move || u.unsubscribe()));
+    let mut h = cat::handle_t(0);
+    feeder = Box::new(move |ev| feed_t(&mut h, ev));
+  }
+  e::note(format!("finalize{} pre={:?} post={:?}", if threads_form { "_threads" } else { "" }, pre, post));
+  let mut source_terminated = false;
+  let mut triggered = false;
+  for _ in 0..k {
+    let c = e::choose(4);
+    match c {
+      0 => {
+        let ev = Ev::Next(Val::var());
+        e::note(world::show_ev(&ev));
+        feeder(&ev);
+      }
+      1 | 2 => {
+        let ev = if c == 1 { Ev::Complete } else { Ev::Err(Val::var()) };
+        e::note(world::show_ev(&ev));
+        feeder(&ev);
+        if !source_terminated {
+          source_terminated = true;
+          triggered = true;
+        }
+      }
+      _ => {
+        if let Some(u) = unsub.take() {
+          e::note("unsubscribe()".to_string());
+          u();
+          triggered = true;
+        } else {
+          e::prune();
+        }
+      }
+    }
+    let n = world::counter(1);
+    if triggered && n != 1 {
+      e::fail("finalize/not-run-after-trigger", || format!("after the first complete/error/unsubscribe the finalizer count is {}", n));
+    }
+    if !triggered && n != 0 && !probe.terminated() {
+      e::fail("finalize/ran-early", || "finalizer ran before any complete/error/unsubscribe".to_string());
+    }
+    if n == 1 && probe.terminated() && world::counter(2) == 0 && source_terminated {
+      // finalizer ran before the downstream saw its terminal
+      let unsub_first = unsub.is_none() && !world::w(|w| w.probes[probe.id].log.last().map_or(false, |r| !matches!(r.ev, Ev::Next(_))));
+      if !unsub_first {
+        e::fail("finalize/before-downstream-terminal", || "finalizer ran before the terminal notification reached the subscriber".to_string());
+      }
+    }
+  }
+  e::cover("c15-path-complete");
+  if world::counter(1) == 1 {
+    e::cover("finalizer-ran");
+  }
+}
+
+// ------------------------------------------------------------------ C04 / C18: two-input combinators along a merged timeline
+
+fn draw_timeline(k: usize) -> Vec<(usize, Ev)> {
+  (0..k)
+    .map(|_| {
+      let side = e::choose(2) as usize;
+      let ev = match e::choose(3) {
+        0 => Ev::Next(Val::var()),
+        1 => Ev::Complete,
+        _ => Ev::Err(Val::var()),
+      };
+      (side, ev)
+    })
+    .collect()
+}
+
+fn show_timeline(tl: &[(usize, Ev)]) -> String {
+  tl.iter().map(|(s, e)| format!("{}:{}", if *s == 0 { "a" } else { "b" }, world::show_ev(e))).collect::<Vec<_>>().join(" ")
+}
+
+fn run2_local(op: Op2, tl: &[(usize, Ev)]) -> Vec<Ev> {
+  let probe = fresh_probe();
+  let o = cat::build2(op, cat::hot_tagged(100), cat::hot_tagged(101));
+  let _u = subscribe(o, probe);
+  for (side, ev) in tl {
+    if let Some(mut h) = cat::handle_nth(100 + side, 0) {
+      feed(&mut h, ev);
+    }
+  }
+  probe.events()
+}
+
+fn run2_threads(op: Op2, tl: &[(usize, Ev)]) -> Vec<Ev> {
+  let probe = fresh_probe();
+  let o = cat::build2_t(op, cat::hot_tagged_t(100), cat::hot_tagged_t(101));
+  let _u = subscribe_t(o, probe);
+  for (side, ev) in tl {
+    if let Some(mut h) = cat::handle_t_nth(100 + side, 0) {
+      feed_t(&mut h, ev);
+    }
+  }
+  probe.events()
+}
+
+fn verify2(op: Op2, tl: &[(usize, Ev)], got: &[Ev], form: &str) {
+  let key = format!("timeline-mismatch/{:?}{}", op, form);
+  let want = model::sem2(op, tl, false);
+  let r0 = model::compare_events(got, &want);
+  if model::has_alt2(op) {
+    if let Ok(t) = &r0 {
+      if e::valid(*t) {
+        return;
+      }
+    }
+    let want1 = model::sem2(op, tl, true);
+    if let Ok(t) = model::compare_events(got, &want1) {
+      if e::valid(t) {
+        return;
+      }
+    }
+  }
+  let detail = || format!("timeline [{}] ; got [{}] ; expected [{}]", show_timeline(tl), model::show_events(got), model::show_events(&want));
+  match r0 {
+    Ok(t) => e::check(t, &key, detail),
+    Err(why) => e::fail(&key, || format!("{} ; {}", why, detail())),
+  }
+}
+
+fn c04_timeline(k: usize, threads_form: bool) {
+  let op = OPS2[e::choose(OPS2.len() as u32) as usize];
+  let tl = draw_timeline(k);
+  e::note(format!("{:?}{} [{}]", op, if threads_form { "_threads" } else { "" }, show_timeline(&tl)));
+  let got = if threads_form { run2_threads(op, &tl) } else { run2_local(op, &tl) };
+  verify2(op, &tl, &got, if threads_form { "_threads" } else { "" });
+  e::cover("c04-path-complete");
+}
+
+/// C18: same script into the local and the thread-safe form, logs compared item by item.
+fn c18_binary(k: usize) {
+  let op = OPS2[e::choose(OPS2.len() as u32) as usize];
+  let tl = draw_timeline(k);
+  e::note(format!("{:?} local vs threads [{}]", op, show_timeline(&tl)));
+  let a = run2_local(op, &tl);
+  let b = run2_threads(op, &tl);
+  let key = format!("local-vs-threads/{:?}", op);
+  let detail = || format!("timeline [{}] ; local [{}] ; threads [{}]", show_timeline(&tl), model::show_events(&a), model::show_events(&b));
+  match model::compare_events(&a, &b) {
+    Ok(t) => e::check(t, &key, detail),
+    Err(why) => e::fail(&key, || format!("{} ; {}", why, detail())),
+  }
+}
+
+fn c18_chain(depth: usize, k: usize) {
+  // unary chains: local catalogue vs thread-safe catalogue (boxed-threads, finalize_threads, SubscriberThreads)
+  let unary = all_unary_ops();
+  let mut chain: Vec<(Op, P)> = vec![];
+  for i in 0..depth {
+    let op = pick_op(&unary);
+    chain.push((op, draw_params(op, k as u32, 10 + i)));
+  }
+  let evs: Vec<Ev> = (0..k)
+    .map(|_| match e::choose(3) {
+      0 => Ev::Next(Val::var()),
+      1 => Ev::Complete,
+      _ => Ev::Err(Val::var()),
+    })
+    .collect();
+  e::note(format!("chain {} ; events [{}]", chain.iter().map(|(o, p)| show_p(*o, p)).collect::<Vec<_>>().join(" -> "), model::show_events(&evs)));
+  let pa = fresh_probe();
+  let _ua = subscribe(build_chain(cat::hot(), &chain), pa);
+  let mut h = cat::handle(0);
+  for ev in &evs {
+    feed(&mut h, ev);
+  }
+  let pb = fresh_probe();
+  let _ub = subscribe_t(build_chain_t(cat::hot_t(), &chain), pb);
+  let mut ht = cat::handle_t(0);
+  for ev in &evs {
+    feed_t(&mut ht, ev);
+  }
+  let (a, b) = (pa.events(), pb.events());
+  let key = chain_key("local-vs-threads", &chain);
+  let detail = || format!("local [{}] ; threads [{}]", model::show_events(&a), model::show_events(&b));
+  match model::compare_events(&a, &b) {
+    Ok(t) => e::check(t, &key, detail),
+    Err(why) => e::fail(&key, || format!("{} ; {}", why, detail())),
+  }
+}
+
 pub fn harnesses() -> Vec<HarnessDef> {
   let mut v = vec![];
-  v.push(HarnessDef {
-    id: "c03_chain_d1",
-    props: vec!["C03"],
-    about: "every catalogue operator alone, symbolic items/thresholds, all scripts, cold and hot source, vs list oracle",
-    bounds: |t| format!("depth 1; scripts of <= {} symbolic items x 3 terminals; counts 0..={}; 3 predicate kinds", if t { 4 } else { 3 }, if t { 5 } else { 4 }),
-    f: Box::new(|t| c03_chain(1, if t { 4 } else { 3 })),
-    budget_quick: 400_000,
-    budget_thorough: 4_000_000,
-    thorough_only: false,
-    sampled: false,
-  });
-  v.push(HarnessDef {
-    id: "c03_chain_d2",
-    props: vec!["C03"],
-    about: "every ordered pair of catalogue operators",
-    bounds: |t| format!("depth 2; scripts of <= {} symbolic items x 3 terminals; {}", if t { 3 } else { 2 }, if t { "exhaustive" } else { "seeded frontier sample under the path budget" }),
-    f: Box::new(|t| c03_chain(2, if t { 3 } else { 2 })),
-    budget_quick: 250_000,
-    budget_thorough: 30_000_000,
-    thorough_only: false,
-    sampled: true,
-  });
+  let mut add = |id: &'static str, props: Vec<&'static str>, about: &'static str, bounds: fn(bool) -> String, f: Box<dyn Fn(bool) + Send + Sync>, bq: u64, bt: u64, sampled: bool| {
+    v.push(HarnessDef { id, props, about, bounds, f, budget_quick: bq, budget_thorough: bt, thorough_only: false, sampled });
+  };
+  add("c03_chain_d1", vec!["C03"], "every catalogue operator alone, symbolic items/thresholds, all scripts, cold and hot source, vs list oracle",
+    |t| format!("depth 1; scripts of <= {} symbolic items x 3 terminals; counts 0..={}; 3 predicate kinds", if t { 4 } else { 3 }, if t { 5 } else { 4 }),
+    Box::new(|t| c03_chain(1, if t { 4 } else { 3 })), 400_000, 4_000_000, false);
+  add("c03_chain_d2", vec!["C03"], "every ordered pair of catalogue operators",
+    |t| format!("depth 2; scripts of <= {} symbolic items x 3 terminals", if t { 3 } else { 2 }),
+    Box::new(|t| c03_chain(2, if t { 3 } else { 2 })), 400_000, 30_000_000, true);
+  add("c03_chain_d3", vec!["C03"], "triples of catalogue operators (seeded frontier sample)",
+    |t| format!("depth 3; scripts of <= 2 symbolic items; sampled under a budget of {} paths", if t { 6_000_000 } else { 150_000 }),
+    Box::new(|_| c03_chain(3, 2)), 150_000, 6_000_000, true);
+  add("c03_sources", vec!["C03", "C13"], "of, of_option, of_result, of_fn, start, from_iter, repeat, empty, never, throw, create, defer vs documented sequence and call counts",
+    |_| "all 12 sources; from_iter/repeat lengths 0..=4; create: all scripts of 4 events".to_string(),
+    Box::new(|_| c03_sources()), 100_000, 100_000, false);
+  add("c01_chain_d1", vec!["C01"], "one catalogue stage (unary or two-input with a second hot input), arbitrary events incl. post-terminal and repeated terminals through cloned handles; grammar monitor + list oracle for unary chains",
+    |t| format!("depth 1; {} arbitrary events over all hot inputs", if t { 5 } else { 4 }),
+    Box::new(|t| hot_chain(Mode::Grammar, 1, if t { 5 } else { 4 }, true)), 400_000, 6_000_000, false);
+  add("c01_chain_d2", vec!["C01"], "two catalogue stages, arbitrary events on every hot input",
+    |t| format!("depth 2; {} arbitrary events; {}", if t { 4 } else { 3 }, if t { "exhaustive" } else { "seeded frontier sample" }),
+    Box::new(|t| hot_chain(Mode::Grammar, 2, if t { 4 } else { 3 }, true)), 400_000, 40_000_000, true);
+  add("c02_chain", vec!["C02"], "non-scheduler chains: unsubscribe() / guard drop at every position of an arbitrary event script; any later delivery is a violation; source-side handles must report closed",
+    |t| format!("depth {}; {} events; cut at every position; unsubscribe() and SubscriptionGuard drop", if t { 2 } else { 1 }, if t { 4 } else { 4 }),
+    Box::new(|t| hot_chain(Mode::Unsub, if t { 2 } else { 1 }, 4, true)), 600_000, 40_000_000, true);
+  add("c17_chain", vec!["C17"], "is_closed() sampled after every step of an arbitrary event script: monotone, and no delivery after it returned true",
+    |t| format!("depth {}; {} events", if t { 2 } else { 1 }, 4),
+    Box::new(|t| hot_chain(Mode::IsClosed, if t { 2 } else { 1 }, 4, true)), 600_000, 40_000_000, true);
+  add("c16_finished", vec!["C16"], "forwarding obligation: once the subscriber has terminated, every hot producer handle (main and notifier positions) sees is_finished() == true",
+    |t| format!("depth {}; {} events", if t { 2 } else { 1 }, 4),
+    Box::new(|t| hot_chain(Mode::Finished, if t { 2 } else { 1 }, 4, true)), 600_000, 40_000_000, true);
+  add("c13_chain", vec!["C13"], "cold chains: nothing runs at build time; three subscriptions of clones (sequential and nested) each reproduce the oracle; source runs once per subscription",
+    |t| format!("depth {}; scripts of <= {} items", if t { 2 } else { 1 }, if t { 3 } else { 3 }),
+    Box::new(|t| c13_chain(if t { 2 } else { 1 }, 3)), 400_000, 20_000_000, true);
+  add("c13_chain_d2", vec!["C13"], "cold chains of depth 2 (seeded frontier sample in the quick tier)",
+    |_| "depth 2; scripts of <= 2 items".to_string(),
+    Box::new(|_| c13_chain(2, 2)), 200_000, 20_000_000, true);
+  add("c15_finalize", vec!["C15"], "finalize: any item prefix then any order of complete/error/unsubscribe (repeated through clones); counter 0 before, 1 right after the first trigger, never 2; not before the downstream terminal",
+    |t| format!("{} steps; optional operator before and after finalize", if t { 6 } else { 5 }),
+    Box::new(|t| c15_finalize(if t { 6 } else { 5 }, false)), 600_000, 10_000_000, false);
+  add("c15_finalize_threads", vec!["C15", "C18"], "finalize_threads, same scripts (single logical thread)",
+    |t| format!("{} steps", if t { 6 } else { 5 }),
+    Box::new(|t| c15_finalize(if t { 6 } else { 5 }, true)), 600_000, 10_000_000, false);
+  add("c04_timeline", vec!["C04"], "merge, zip, combine_latest, with_latest_from, take_until, skip_until, sample, buffer(notifier): every merged timeline of two hot inputs vs the timeline oracle",
+    |t| format!("{} events (side x kind), symbolic values", if t { 6 } else { 5 }),
+    Box::new(|t| c04_timeline(if t { 6 } else { 5 }, false)), 3_000_000, 40_000_000, false);
+  add("c04_timeline_threads", vec!["C04"], "the _threads forms of the two-input combinators vs the same oracle",
+    |t| format!("{} events", if t { 6 } else { 4 }),
+    Box::new(|t| c04_timeline(if t { 6 } else { 4 }, true)), 3_000_000, 40_000_000, false);
+  add("c18_binary", vec!["C18"], "two-input combinators: the same symbolic timeline into the local and the _threads form, logs compared",
+    |t| format!("{} events", if t { 6 } else { 5 }),
+    Box::new(|t| c18_binary(if t { 6 } else { 5 })), 3_000_000, 40_000_000, false);
+  add("c18_chain", vec!["C18"], "unary chains through the local vs the thread-safe boxed/finalize/subscriber forms",
+    |t| format!("depth {}; 4 arbitrary events", if t { 2 } else { 1 }),
+    Box::new(|t| c18_chain(if t { 2 } else { 1 }, 4)), 600_000, 40_000_000, true);
   v
 }
